@@ -311,7 +311,7 @@ def mp_value(rng, family, withdraw=False, nmax=20):
                            'label': [524288] if withdraw else label_stack(rng, 1)[:1]})
         v = {'afi_safi': [2 if six else 1, 128], key: routes}
         if not withdraw:
-            v['nexthop'] = {'rd': '0:0', 'str': ipv6(rng, rng.choice(['mapped', 'mapped', 'doc', 'small'])) if six else ipv4(rng, 'rand')}
+            v['nexthop'] = {'rd': '0:0' if rng.random() < 0.5 else '%d:%d' % (rng.choice(ASN2 + [0, 1]), rng.choice(U32 + [1, 7])), 'str': ipv6(rng, rng.choice(['mapped', 'mapped', 'doc', 'small'])) if six else ipv4(rng, 'rand')}
     elif family == 'evpn':
         v = {'afi_safi': [25, 70], key: [evpn_route(rng) for _ in range(min(n, 6))]}
         if not withdraw:
